@@ -670,15 +670,15 @@ def selftest(ctx, sample_events):
     orig = va.autofill_picture_number
 
     def broken(stream, initial_picture_number=0):
-        # numbering not restarted per sequence, no wrap
-        last = initial_picture_number - 1
+        # numbering not restarted per sequence
+        last = (initial_picture_number - 1) & 0xFFFFFFFF
         for sequence in stream.get("sequences", []):
             for du in sequence.get("data_units", []):
                 pc = du.get("parse_info", {}).get("parse_code")
                 if pc in (200, 232):
                     h = du.setdefault("picture_parse", fd.PictureParse()).setdefault("picture_header", fd.PictureHeader())
                     if h.get("picture_number", va.AUTO) is va.AUTO:
-                        h["picture_number"] = last + 1
+                        h["picture_number"] = (last + 1) & 0xFFFFFFFF
                     last = h["picture_number"]
 
     good = execute(seqs)
@@ -711,7 +711,7 @@ def selftest(ctx, sample_events):
     if corrupt is None or not (3 in by and by[3]["alarm"] and by[3]["clause"] == "NextOffset"):
         raise RuntimeError("binding self-test failed: corrupted next_parse_offset accepted: %r" % (bad,))
     return {
-        "mutant": "autofill_picture_number without per-sequence restart / wrap (in-process monkeypatch)",
+        "mutant": "autofill_picture_number without per-sequence restart (in-process monkeypatch)",
         "verdict": by[2],
         "corrupted_field": "recorded next_parse_offset + 1 -> clause NextOffset",
     }
@@ -730,9 +730,16 @@ def run(ctx):
     cfg = open(os.path.join(tlc.SPEC, "mc/Autofill.cfg")).read()
     consts = {"MaxUnits": ctx.pick(2, 3), "MaxSeqs": 2, "Cross": False}
     cfg_run = cfg.replace("MaxUnits = 3", "MaxUnits = %d" % consts["MaxUnits"])
+    import time
+
+    phases = {}
+    t0 = time.time()
     res = tlc.run("Autofill", cfg_run, dump=True, timeout=ctx.pick(900, 2400))
     ctx.add_tlc(res, "exhaustive", consts)
+    phases["tlc_exhaustive_s"] = round(time.time() - t0, 1)
+    t0 = time.time()
     cases = load_cases(res.dump_path)
+    phases["parse_dump_s"] = round(time.time() - t0, 1)
     if not ctx.quick:
         simcfg = cfg.replace("MaxUnits = 3", "MaxUnits = 6").replace("MaxSeqs = 2", "MaxSeqs = 3").replace("Cross = FALSE", "Cross = TRUE")
         sim = tlc.run("Autofill", simcfg, simulate=1500, depth=30, seed=ctx.seed, workers=1, timeout=1800)
@@ -746,7 +753,9 @@ def run(ctx):
     if len(cases) < 500:
         raise RuntimeError("vacuous: only %d descriptions from TLC" % len(cases))
     jobs = [(i + 1, c["seqs"]) for i, c in enumerate(cases)]
+    t0 = time.time()
     events = common.pmap(exec_case, jobs)
+    phases["execute_tlc_descriptions_s"] = round(time.time() - t0, 1)
     # G comparison (equality with the spec's expectation; logged) ...
     g_diff = 0
     unser = 0
@@ -759,11 +768,15 @@ def run(ctx):
     if unser > len(cases) // 20:
         raise RuntimeError("vacuous: %d of %d spec-serialisable descriptions were not serialised by the code (e.g. %s)" % (unser, len(cases), [e["exc"] for e in events if not e["ser"]][:3]))
     # ... and T: TLC judges the same runs plus random descriptions
-    nrand = ctx.pick(6000, 120000)
+    nrand = ctx.pick(4000, 120000)
     rjobs = [(len(events) + 1 + j, ctx.seed * 7919 + j) for j in range(nrand)]
+    t0 = time.time()
     revents = common.pmap(rand_case, rjobs)
+    phases["execute_random_descriptions_s"] = round(time.time() - t0, 1)
     all_events = events + revents
+    t0 = time.time()
     bad = validate_events(ctx, all_events, "G+random", chunks=ctx.pick(6, 12))
+    phases["trace_validation_s"] = round(time.time() - t0, 1)
     by_tid = {e["tid"]: e for e in all_events}
     logged = {}
     alarmed = set()
@@ -805,6 +818,7 @@ def run(ctx):
             "tlc_descriptions_not_serialised_by_code": unser,
             "spec_disagreements": {"expectation_mismatch_without_alarm": g_only, "expectation_mismatch_total": g_diff, "logged_clauses": logged},
             "binding_selftest": st,
+            "phase_wall_s": phases,
             "samples": samples,
         }
     )
